@@ -683,6 +683,21 @@ func (c *Ctx) regexpOf(v ssa.Value) *syntax.Regexp {
 
 // PatternOfGlobal returns the pattern constant a *regexp.Regexp global is compiled from in package init.
 func (c *Ctx) PatternOfGlobal(g *ssa.Global) (string, bool) {
+	// the variable is assigned exactly once in the whole module (a second assignment — in a declared init(), in any
+	// function — would make the analysed pattern not the one that is matched)
+	stores := 0
+	for fn := range c.AllRepoFuncs() {
+		for _, b := range fn.Blocks {
+			for _, in := range b.Instrs {
+				if st, ok := in.(*ssa.Store); ok && st.Addr == ssa.Value(g) {
+					stores++
+				}
+			}
+		}
+	}
+	if stores != 1 {
+		return "", false
+	}
 	for fn := range c.AllRepoFuncs() {
 		if fn.Name() != "init" {
 			continue
